@@ -162,7 +162,8 @@ PROFILE = {
                'ping_interval': st.sampled_from([1, 5, 25]),
                'ping_timeout': st.sampled_from([1, 5, 20]),
                'max_http_buffer_size': st.sampled_from([1000000, 1000000, 50]),
-               'http_compression': st.sampled_from([True, True, False])},
+               'http_compression': st.sampled_from([True, True, False]),
+               'cors_allowed_origins': st.sampled_from([None, None, '*'])},
     'autopong': [True, True, False],
     'autopoll': [False, True],
     'disconnect_all_pct': 3,
